@@ -94,6 +94,18 @@ func main() {
 		file := filepath.Base(in)
 		file = file[0 : len(file)-len(filepath.Ext(in))] // Remove extension.
 
-		os.WriteFile(filepath.Join(options.out, fmt.Sprintf("%s.%s", file, conv.Extension())), []byte(dump), 0777)
+		target := filepath.Join(options.out, fmt.Sprintf("%s.%s", file, conv.Extension()))
+		temp := target + ".tmp"
+
+		// Write to a temporary file first to make sure a failing write doesn't leave a partial (or destroy an existing) output file.
+		if err := os.WriteFile(temp, []byte(dump), 0777); err != nil {
+			os.Remove(temp)
+			panic(err)
+		}
+
+		if err := os.Rename(temp, target); err != nil {
+			os.Remove(temp)
+			panic(err)
+		}
 	}
 }
